@@ -657,3 +657,45 @@ def viewbox_clip(H):
     if len(kids) == 1:
         a = kids[0].attrib
         H.prove(a.get("d", "").replace(" ", "").startswith("M0,0L2,0") and a.get("fill-rule", "nonzero") == "nonzero" and a.get("fill") == "red", "viewbox.result_is_the_intersection_nonzero_paint_kept", detail=str(dict(a)))
+
+
+_DEFS_IDS = ("b", "d", "f")
+
+
+@obligation(("C07", "C08"), "defs.insert_position", functions=["svg.SVG._add_to_defs"])
+def defs_insert_position(H):
+    """_add_to_defs keeps a defs that is sorted by id sorted: the new element goes right before the first entry with a
+    greater id, after everything when there is none; an element without id is not added; nothing else moves.  (Exhaustive
+    over defs of 0-3 entries and every relative position of the new id - the scan is a plain loop over the children, the
+    ids are concrete strings; the order must not depend on the insertion sequence, or pass 1 and pass 2 of a conversion
+    produce different documents.)"""
+    n = H.case("entries", (0, 1, 2, 3))
+    new_id = H.case("new_id", ("a", "c", "e", "g", None))
+    if H.mode == "concrete":
+        from lxml import etree
+
+        mk = lambda i: etree.Element(SVGNS + "linearGradient", {"id": i} if i else {})
+    else:
+        fake_tree.install(H)
+        mk = lambda i: _el("linearGradient", {"id": i} if i else {})
+    existing = [mk(i) for i in _DEFS_IDS[:n]]
+    defs = mk(None)
+    defs.tag = SVGNS + "defs"
+    for e_ in existing:
+        defs.append(e_)
+    new = mk(new_id)
+    svg = SVG(defs)
+    _, e = H.catch(SVG._add_to_defs, svg, defs, new)
+    H.prove(e is None, "defs.no_exception", detail=repr(e))
+    kids = list(defs)
+    if new_id is None:
+        H.prove(kids == existing, "defs.element_without_id_is_not_added")
+        return
+    rest = [k for k in kids if k is not new]
+    H.prove(len(kids) == n + 1 and all(a is b for a, b in zip(rest, existing)), "defs.added_once_nothing_else_moves")
+    ids = [k.attrib.get("id") for k in kids]
+    greater = [i for i in _DEFS_IDS[:n] if i > new_id]
+    if greater:
+        H.prove(ids == sorted(ids), "defs.new_element_goes_before_the_first_greater_id", detail=str(ids))
+    else:
+        H.prove(ids == sorted(ids), "defs.greater_than_all_goes_last", detail=str(ids))
